@@ -87,7 +87,7 @@ def run_case(case):
             sig["gamma_free"] = gamma_free
             sig["beta_true_below_1"] = bool(th["beta"] < 1)
             if gap is not None:
-                sig["ll_gap_below_5"] = bool(abs(gap) < 5)
+                sig["ll_gap_below_100"] = bool(abs(gap) < 100)
         if not any(v["sig"] == sig for v in viol):
             viol.append({"sig": sig, "detail": detail, "case": case})
 
